@@ -6,6 +6,7 @@ import (
 	"errors"
 	"fmt"
 	"io"
+	"math/rand"
 	"sync"
 
 	"github.com/ulikunitz/xz"
@@ -40,7 +41,7 @@ type faultScenario struct {
 	decode func(sink []byte) ([]byte, bool) // reference decode: content, complete&valid
 }
 
-func faultScenarios(seed int64) []faultScenario {
+func faultScenarios(seed int64, thorough bool) []faultScenario {
 	var out []faultScenario
 	text := MakeData("text", 900, seed)
 	rnd := MakeData("random", 700, seed+1)
@@ -84,6 +85,28 @@ func faultScenarios(seed int64) []faultScenario {
 		faultScenario{"lzma-marker", "lzma", aOpen(AloneCfg{LC: 3, PB: 2, DictCap: 4096, BufSize: 4096}), []string{"W0", "W1", "C"}, [][]byte{text, rnd}, decA},
 		faultScenario{"lzma-size-big", "lzma", aOpen(AloneCfg{LC: 3, PB: 2, DictCap: 4096, BufSize: 273, Matcher: 1, Sih: true, Size: 20000}), []string{"W0", "C"}, [][]byte{MakeData("random", 20000, seed+4)}, decA},
 	)
+	if thorough {
+		// a dozen further scenarios with configurations and inputs drawn from the boundary sets
+		r := rand.New(rand.NewSource(seed * 7))
+		for k := 0; k < 12; k++ {
+			data := MakeData([]string{"alternating", "nearrandom", "text", "lowentropy"}[k%4], 20000+r.Intn(50000), seed+int64(k)+40)
+			half := len(data) / 2
+			switch k % 3 {
+			case 0:
+				g := xzConfig(r, false)
+				if g.BlockSize > 0 && g.BlockSize < 2000 {
+					g.BlockSize = 5000
+				}
+				out = append(out, faultScenario{fmt.Sprintf("xz-random-%d-%s", k, g.String()), "xz", xzOpen(g), []string{"W0", "W1", "C"}, [][]byte{data[:half], data[half:]}, decXZ})
+			case 1:
+				g := w2Configs(r, false)[r.Intn(12)]
+				out = append(out, faultScenario{fmt.Sprintf("lzma2-random-%d-%s", k, g.String()), "lzma2", l2Open(g), []string{"W0", "F", "W1", "F", "C"}, [][]byte{data[:half], data[half:]}, decL2})
+			default:
+				g := AloneCfg{LC: r.Intn(9), LP: r.Intn(5), PB: r.Intn(5), DictCap: []int{4096, 5000, 65536}[r.Intn(3)], BufSize: []int{273, 4096}[r.Intn(2)], Matcher: r.Intn(2), Eos: k%2 == 0}
+				out = append(out, faultScenario{fmt.Sprintf("lzma-random-%d", k), "lzma", aOpen(g), []string{"W0", "W1", "C"}, [][]byte{data[:half], data[half:]}, decA})
+			}
+		}
+	}
 	return out
 }
 
@@ -200,7 +223,7 @@ func C09(c *hx.Ctx) {
 		c.Inconclusive("IoGen produced no fault plans: %s\n%s", g.ErrText, g.Tail(10))
 		return
 	}
-	scs := faultScenarios(c.Seed)
+	scs := faultScenarios(c.Seed, c.Thorough())
 	type job struct {
 		sc   int
 		plan faultPlan
